@@ -21,6 +21,18 @@
 //        cfg bits: 1 create_empty_areas, 2 check_roles, 4 ignore_invalid_locations
 //        -> "ret=R areas=N <area>* stats=... problems=... notes=-|maxdepth|toomany"
 //           area = "A<from_way>:<orig_id>[O:id@x@y,..|I:...|...]"
+//   rb x1 y1 x2 y2  x1 y1 x2 y2 ...
+//        RING BUILDING, step by step, on a real BasicAssembler whose m_segment_list holds these
+//        segments: sort(); erase_duplicate_segments(); find_intersections(); then the REAL
+//        create_locations_list(), find_split_locations() and
+//          - no split location:  create_rings_simple_case()  (get_next_segment, add_new_ring,
+//            find_enclosing_ring, ProtoRing::fix_direction)
+//          - split locations:    add_new_ring_complex() driven by the two loops of
+//            create_rings_complex_case() (copied here: the partial rings are not observable after
+//            the real function has merged them), then — on a second assembler — the real
+//            create_rings_complex_case(), whose final rings are printed as well
+//        -> "n=N ix=K [segs=.. locs=item.rev,.. open=N opens=x:y;.. splits=x:y;..
+//             (simple rings=O:item.rev,..|I<outer>:..  |  complex pieces=item.rev,..|.. final=ret:..)]"
 #include "common.hpp"
 
 #include <osmium/area/assembler.hpp>
@@ -33,6 +45,9 @@
 
 #include <algorithm>
 #include <list>
+
+#include <sys/resource.h>
+#include <unistd.h>
 
 using osmium::area::detail::NodeRefSegment;
 using osmium::area::detail::ProtoRing;
@@ -330,7 +345,184 @@ static std::string do_asm(const std::vector<std::string>& w) {
     return "ret=" + b01(ret) + " areas=" + std::to_string(n) + as + " stats=" + stats_str(stats) + " problems=" + rec.str() + " notes=" + notes;
 }
 
+
+// ---- ring building, step by step ------------------------------------------------------------------
+
+using osmium::area::detail::BasicAssembler;
+
+static std::string entry_str(const BasicAssembler& ba, const NodeRefSegment* seg) {
+    const auto idx = seg - &ba.m_segment_list.m_segments[0];
+    return std::to_string(idx) + "." + (seg->is_reverse() ? "1" : "0");
+}
+
+static std::string ring_entries(const BasicAssembler& ba, const ProtoRing& ring) {
+    std::string out;
+    for (const auto* seg : ring.segments()) {
+        if (!out.empty()) out += ',';
+        out += entry_str(ba, seg);
+    }
+    return out;
+}
+
+static void fill_segments(BasicAssembler& ba, const std::vector<std::string>& w) {
+    // node ids by location: 1000 + rank of the location
+    std::vector<osmium::Location> ls;
+    for (std::size_t i = 1; i + 1 < w.size(); i += 2) ls.push_back(loc(std::stoll(w[i]), std::stoll(w[i + 1])));
+    std::vector<osmium::Location> sorted = ls;
+    std::sort(sorted.begin(), sorted.end());
+    sorted.erase(std::unique(sorted.begin(), sorted.end()), sorted.end());
+    const auto id_of = [&](const osmium::Location& l) {
+        return static_cast<int64_t>(1000 + (std::lower_bound(sorted.begin(), sorted.end(), l) - sorted.begin()));
+    };
+    for (std::size_t k = 0; k + 1 < ls.size(); k += 2) {
+        ba.m_segment_list.m_segments.emplace_back(osmium::NodeRef{id_of(ls[k]), ls[k]}, osmium::NodeRef{id_of(ls[k + 1]), ls[k + 1]},
+                                                  role_type::outer, nullptr);
+    }
+}
+
+static std::string do_rb(const std::vector<std::string>& w) {
+    if ((w.size() - 1) % 4 != 0) return "bad-op";
+    Recorder rec;
+    osmium::area::AssemblerConfig config;
+    config.problem_reporter = &rec;
+    BasicAssembler ba{config};
+    fill_segments(ba, w);
+    for (const auto& s : ba.m_segment_list) {
+        if (s.first().location() == s.second().location()) return "bad-op"; // never created by extract_segments_from_way
+    }
+    ba.m_segment_list.sort();
+    uint64_t dup = 0;
+    uint64_t ov = 0;
+    ba.m_segment_list.erase_duplicate_segments(nullptr, dup, ov);
+    std::string out = "n=" + std::to_string(ba.m_segment_list.size());
+    if (ba.m_segment_list.empty()) return out;
+    const auto ix = ba.m_segment_list.find_intersections(nullptr);
+    out += " ix=" + std::to_string(ix);
+    if (ix) return out;
+    out += " segs=" + seglist(ba.m_segment_list);
+
+    ba.create_locations_list();
+    out += " locs=";
+    for (std::size_t i = 0; i < ba.m_locations.size(); ++i) {
+        if (i) out += ',';
+        out += std::to_string(static_cast<uint32_t>(ba.m_locations[i].item)) + "." + (ba.m_locations[i].reverse ? "1" : "0");
+    }
+
+    const bool ok = ba.find_split_locations();
+    out += " open=" + std::to_string(ba.m_stats.open_rings) + " opens=";
+    {
+        std::string o;
+        for (const auto& c : rec.calls) {
+            // "open:<id>:<x>:<y>:<way>"
+            if (c.rfind("open:", 0) == 0) {
+                const auto p1 = c.find(':', 5);
+                const auto p3 = c.rfind(':');
+                if (!o.empty()) o += ';';
+                o += c.substr(p1 + 1, p3 - p1 - 1);
+            }
+        }
+        out += o.empty() ? "-" : o;
+    }
+    out += " splits=";
+    if (ba.m_split_locations.empty()) out += "-";
+    for (std::size_t i = 0; i < ba.m_split_locations.size(); ++i) {
+        if (i) out += ';';
+        out += locs(ba.m_split_locations[i]);
+    }
+    out += std::string{" ret="} + b01(ok);
+    if (!ok) return out;
+
+    if (ba.m_split_locations.empty()) {
+        ba.create_rings_simple_case();
+        out += " simple rings=";
+        bool first = true;
+        for (const auto& ring : ba.m_rings) {
+            if (!first) out += '|';
+            first = false;
+            if (ring.is_outer()) {
+                out += "O";
+            } else {
+                std::size_t k = 0;
+                for (const auto& r2 : ba.m_rings) {
+                    if (&r2 == ring.outer_ring()) break;
+                    ++k;
+                }
+                out += "I" + std::to_string(k);
+            }
+            out += ":" + ring_entries(ba, ring) + ":" + std::to_string(ring.sum());
+        }
+        return out;
+    }
+    if (ba.m_split_locations.size() > BasicAssembler::max_split_locations) return out + " toomany";
+
+    // the two loops of create_rings_complex_case() around the REAL add_new_ring_complex()
+    {
+        auto count_remaining = ba.m_segment_list.size();
+        for (const osmium::Location& location : ba.m_split_locations) {
+            const auto range = std::equal_range(ba.m_locations.begin(), ba.m_locations.end(), BasicAssembler::slocation{},
+                                                [&ba, &location](const BasicAssembler::slocation& lhs, const BasicAssembler::slocation& rhs) {
+                                                    return lhs.location(ba.m_segment_list, location) < rhs.location(ba.m_segment_list, location);
+                                                });
+            for (auto it = range.first; it != range.second; ++it) {
+                if (!ba.m_segment_list[it->item].is_done()) {
+                    count_remaining -= ba.add_new_ring_complex(*it);
+                    if (count_remaining == 0) break;
+                }
+            }
+        }
+        if (count_remaining > 0) {
+            for (const auto& sl : ba.m_locations) {
+                if (!ba.m_segment_list[sl.item].is_done()) {
+                    count_remaining -= ba.add_new_ring_complex(sl);
+                    if (count_remaining == 0) break;
+                }
+            }
+        }
+        out += " complex pieces=";
+        bool first = true;
+        for (const auto& ring : ba.m_rings) {
+            if (!first) out += '|';
+            first = false;
+            out += ring_entries(ba, ring);
+        }
+    }
+    // the real create_rings_complex_case() on a fresh assembler: its final rings are chains of those pieces
+    {
+        Recorder rec2;
+        osmium::area::AssemblerConfig config2;
+        config2.problem_reporter = &rec2;
+        BasicAssembler bb{config2};
+        fill_segments(bb, w);
+        bb.m_segment_list.sort();
+        bb.m_segment_list.erase_duplicate_segments(nullptr, dup, ov);
+        bb.create_locations_list();
+        bb.find_split_locations();
+        const bool ret = bb.create_rings_complex_case();
+        out += std::string{" final="} + b01(ret) + ":";
+        bool first = true;
+        for (const auto& ring : bb.m_rings) {
+            if (!first) out += '|';
+            first = false;
+            out += ring_entries(bb, ring);
+        }
+    }
+    return out;
+}
+
+// Watchdog for the ops that run the assembler: a defect in the ring-building loops (a mutated
+// library, say) can make them spin and allocate without end.  Earlier output is flushed first, so
+// the number of lines printed identifies the op; SIGALRM (default action) then ends the process.
+struct Watchdog {
+    Watchdog() { std::fflush(stdout); alarm(20); }
+    ~Watchdog() { alarm(0); }
+};
+
 int main() {
+    {
+        struct rlimit rl;
+        rl.rlim_cur = rl.rlim_max = 6ULL * 1024 * 1024 * 1024;
+        setrlimit(RLIMIT_AS, &rl);
+    }
     return vh::line_loop([](const std::string& line) -> std::string {
         const auto w = vh::words(line);
         if (w.empty()) return "bad-op";
@@ -404,7 +596,12 @@ int main() {
                 return out;
             }
             if (w[0] == "asm") {
+                const Watchdog wd;
                 return do_asm(w);
+            }
+            if (w[0] == "rb") {
+                const Watchdog wd;
+                return do_rb(w);
             }
         } catch (const std::exception& e) {
             return std::string{"exception:"} + typeid(e).name();
